@@ -68,7 +68,7 @@ func be32(vs ...uint32) []byte {
 	return out
 }
 
-func bstr(b []byte) string { return fmt.Sprintf("%d:%s", len(b), b) }
+func readerBstr(b []byte) string { return fmt.Sprintf("%d:%s", len(b), b) }
 
 // genBencodeValue: a random bencoded value for an unknown key (nesting <= depth).
 func genBencodeValue(r *Rng, depth int) string {
@@ -80,7 +80,7 @@ func genBencodeValue(r *Rng, depth int) string {
 	case 0:
 		return "i" + genIntText(r) + "e"
 	case 1:
-		return bstr(r.Bytes(r.Pick(0, 1, 2, 5, 20)))
+		return readerBstr(r.Bytes(r.Pick(0, 1, 2, 5, 20)))
 	case 2:
 		var sb strings.Builder
 		sb.WriteString("l")
@@ -93,7 +93,7 @@ func genBencodeValue(r *Rng, depth int) string {
 		var sb strings.Builder
 		sb.WriteString("d")
 		for j := r.Intn(3); j > 0; j-- {
-			sb.WriteString(bstr(r.Bytes(r.Range(0, 4))))
+			sb.WriteString(readerBstr(r.Bytes(r.Range(0, 4))))
 			sb.WriteString(genBencodeValue(r, depth-1))
 		}
 		sb.WriteString("e")
@@ -153,12 +153,12 @@ func genExtPayload(r *Rng) []byte {
 		case "int":
 			return "i" + genIntText(r) + "e"
 		case "str":
-			return bstr(r.Bytes(r.Pick(0, 1, 4, 6, 16, 30)))
+			return readerBstr(r.Bytes(r.Pick(0, 1, 4, 6, 16, 30)))
 		default: // map[string]uint8
 			var sb strings.Builder
 			sb.WriteString("d")
 			for j := r.Pick(0, 1, 2, 2, 5); j > 0; j-- {
-				sb.WriteString(bstr([]byte(r.pickStr("ut_metadata", "ut_pex", "a", "", "lt_donthave"))))
+				sb.WriteString(readerBstr([]byte(r.pickStr("ut_metadata", "ut_pex", "a", "", "lt_donthave"))))
 				if r.Chance(10) {
 					sb.WriteString(genBencodeValue(r, 1))
 				} else {
@@ -212,7 +212,7 @@ func genExtPayload(r *Rng) []byte {
 	sb.WriteByte(byte(eid))
 	sb.WriteString("d")
 	for _, e := range ents {
-		sb.WriteString(bstr([]byte(e.k)))
+		sb.WriteString(readerBstr([]byte(e.k)))
 		sb.WriteString(e.v)
 	}
 	sb.WriteString("e")
@@ -244,7 +244,7 @@ func genHostileExt(r *Rng, max int) []string {
 	case 0, 1: // a string announcing more bytes than the message has
 		n := r.PickU(1, 20, 1<<16, 1<<20, 1<<24, 1<<31-1, 1<<31, 99999999999)
 		key := r.pickStr("v", "x", "added", "m")
-		pre := "d" + bstr([]byte(key)) + fmt.Sprintf("%d:", n)
+		pre := "d" + readerBstr([]byte(key)) + fmt.Sprintf("%d:", n)
 		if r.Bool() {
 			pre = "d" + fmt.Sprintf("%d:", n) // the key itself
 		}
